@@ -461,6 +461,9 @@ def check(pid, tier, batch_seed):
           "wall_s": round(total_wall, 2), "violations": len(reported)}
     os.makedirs(os.path.join(VERIF, "evidence"), exist_ok=True)
     evp = os.path.join(VERIF, "evidence", "%s.json" % pid)
+    if os.environ.get("VERIF_NO_EVIDENCE"):
+        # sensitivity runs against a scratch copy must not overwrite the evidence of /repo
+        evp = os.path.join(tempfile.gettempdir(), "vevidence_%s_%d.json" % (pid, os.getpid()))
     with open(evp, "w") as fp:
         json.dump(ev, fp, indent=1, sort_keys=True, default=str)
     try:
